@@ -21,13 +21,33 @@ Theorem layouts_agree : forall T t,
 Proof. exact go_eq_ll. Qed.
 Print Assumptions layouts_agree.
 
-(* (c) = (b) on the 64-bit agreeing targets: Size_ and Align_ of the descriptor are the
-   LLVM numbers (FieldAlign is Align in the source). *)
+(* (c) = (b): Size_ and Align_ of the descriptor are the LLVM numbers on every agreeing
+   target (amd64, arm64 and - since the table takes the alignment of 64-bit scalars from the
+   data layout, Builder.Align64 - 386 as well).  FieldAlign is Align in the source. *)
 Theorem descriptor_agrees : forall T t,
-  agree_target T -> ptr T = 8 -> wf_ty t = true -> nzt t = true ->
-  abi_size T t = ll_size T t /\ abi_align T t = ll_align T t.
-Proof. intros T t A P W Z. split; [now apply abi_size_ll|now apply abi_align_ll]. Qed.
+  agree_target T -> wf_ty t = true -> nzt t = true ->
+  abi_size T t = ll_size T t /\ abi_align T true t = ll_align T t.
+Proof. intros T t A W Z. split; [now apply abi_size_ll|apply abi_align_ll]. Qed.
 Print Assumptions descriptor_agrees.
+
+(* the repaired alignment table is the LLVM ABI alignment on EVERY target (arm and wasm
+   included) and for every type *)
+Theorem descriptor_align_is_llvm : forall T t, abi_align T true t = ll_align T t.
+Proof. exact abi_align_ll. Qed.
+Print Assumptions descriptor_align_is_llvm.
+
+(* PtrBytes after the repair of the loop: exactly the end of the last pointer word of the
+   LLVM layout - so every pointer word lies below PtrBytes, PtrBytes is 0 iff the type holds
+   no pointer, and nothing behind the last pointer is counted. *)
+Theorem ptrbytes_is_last_pointer_end : forall T t,
+  agree_target T -> wf_ty t = true -> nzt t = true -> abi_ptrbytes T true t = ll_ptr_end T t.
+Proof. intros T t A. now apply ptrbytes_eq. Qed.
+Print Assumptions ptrbytes_is_last_pointer_end.
+
+Example ptrbytes_nontrivial :
+  let t := TStruct [TInt 1; TStruct [TPtr; TInt 8]; TArr 2 (TStruct [TInt 4; TFunc; TInt 2]); TInt 8] in
+  wf_ty t = true /\ nzt t = true /\ abi_ptrbytes amd64 true t = 80 /\ abi_ptrbytes amd64 false t = 24.
+Proof. repeat split. Qed.
 
 (* the hypotheses are satisfiable by the real targets and by a type with padding, a func
    value inside an array inside a struct, and zero-size members that are not tails *)
@@ -124,12 +144,12 @@ Proof.
 Qed.
 Print Assumptions layouts_agree_wasm_refuted.
 
-(* 386: the descriptor table says Align(int64) = 8 although type checker and LLVM use 4;
-   descriptor sizes are then not multiples of descriptor alignments *)
+(* 386, ORIGINAL table (fx = false, before the Align64 repair): Align(int64) = 8 although type
+   checker and LLVM use 4; descriptor sizes were then not multiples of descriptor alignments *)
 Theorem descriptor_agrees_386_refuted :
   agree_target i386 /\
-  abi_align i386 (TInt 8) <> ll_align i386 (TInt 8) /\
-  exists t, wf_ty t = true /\ nzt t = true /\ ~ (abi_align i386 t | abi_size i386 t).
+  abi_align i386 false (TInt 8) <> ll_align i386 (TInt 8) /\
+  exists t, wf_ty t = true /\ nzt t = true /\ ~ (abi_align i386 false t | abi_size i386 t).
 Proof.
   destruct i386_witness as [A [W [Z [AA [LA [_ [S AL]]]]]]].
   split; [exact A|]. split; [rewrite AA, LA; discriminate|].
@@ -137,11 +157,11 @@ Proof.
 Qed.
 Print Assumptions descriptor_agrees_386_refuted.
 
-(* PtrBytes: the loop keeps the PtrBytes of the LAST field, so a pointer followed by a
-   pointer-free field is not covered: struct { *T; int64 } has PtrBytes 0 *)
+(* PtrBytes, ORIGINAL loop (fx = false): it kept the PtrBytes of the LAST field, so a pointer
+   followed by a pointer-free field was not covered: struct { *T; int64 } had PtrBytes 0 *)
 Theorem ptrbytes_prefix_refuted :
   exists T t, agree_target T /\ ptr T = 8 /\ wf_ty t = true /\ nzt t = true /\
-    abi_ptrbytes T t < ll_ptr_end T t.
+    abi_ptrbytes T false t < ll_ptr_end T t.
 Proof.
   exists amd64, w_ptr_then_int. destruct ptrbytes_witness as [A [W [Z [B E]]]].
   rewrite B, E. repeat split; auto.
